@@ -26,7 +26,7 @@ RULE = ("agent arm: 0-6 initial agents, 1-3 mutator systems at priorities above/
         "in ~25% of runs, real temporary files in ~10%; non-trivial = population changed inside >=1 timestep before the "
         "collector's turn (agent arm) / >=2 complete flush cycles with write_count>=1 and >=1 empty collection (file "
         "arm); distinct = abstract schedule shape"
-        "; also: composite function that keeps and updates ONE dict, empty-string records, environment object replaced between timesteps, systems removed next to the collector, stress runs with large write_count; rare switch for known finding F7")
+        "; also: composite function that keeps and updates ONE dict, empty-string records, environment object replaced between timesteps, systems removed next to the collector, stress runs with large write_count; rare switch for known finding F7, per-agent / composite functions given as falsy callable objects")
 COMPONENTS = {"real": ["ECAgent.Collectors.AgentCollector.collect", "FileCollector.execute/write_records", "Collector",
                        "ECAgent.Core scheduler and Environment", "builtins.open + OS (real-file runs only)"],
               "stub": ["open() as seen by ECAgent.Collectors -> simkit.simdisk.SimDisk (durable at flush/close/buffer "
@@ -34,7 +34,7 @@ COMPONENTS = {"real": ["ECAgent.Collectors.AgentCollector.collect", "FileCollect
 PROBES = ["empty_record_suppressed", "collector_off_window", "removed_by_higher_priority_same_step",
           "added_by_higher_priority_same_step", "changed_after_collector_turn", "composite_used", "value_zero_recorded",
           "crash_at_flush_boundary", "crash_mid_flush", "real_file", "composite_shared_dict", "empty_string_record", "environment_replaced", "system_removed_next_to_collector", "empty_collection", "empty_flush",
-          "preexisting_content", "two_file_collectors", "buffer_overflow_mid_flush"]
+          "preexisting_content", "two_file_collectors", "buffer_overflow_mid_flush", "falsy_callable_objects_as_functions"]
 TECHNIQUE = "deterministic simulation: population changing on a seeded schedule inside timesteps vs a replaying reference; simulated disk with crash points and the conservation invariant file + held = collected"
 LEVEL_TEXT = ("Seeded search over population-change schedules, collector windows and disk behaviour; after every timestep the "
               "records equal the reference's and earlier records are untouched; for the file collector, after every disk event "
@@ -127,7 +127,10 @@ def gen_file_arm(rng, tier):
 
 
 def generate(rng, tier):
-    return gen_agent_arm(rng, tier) if rng.random() < 0.5 else gen_file_arm(rng, tier)
+    sc = gen_agent_arm(rng, tier) if rng.random() < 0.5 else gen_file_arm(rng, tier)
+    if sc["arm"] == "agent":
+        sc["falsy_callables"] = rng.random() < 0.15     # the per-agent / composite functions are falsy callable objects
+    return sc
 
 
 # ----------------------------------------------------------------------------------------------------- agent arm
@@ -139,6 +142,22 @@ FUNCS = {
     "listed": lambda v: [v, v * 2],
     "even_only": lambda v: v if v % 2 == 0 else None,
 }
+
+
+class FalsyCall:
+    """A callable object that is falsy (a functor with a container protocol of its own - e.g. a history that is still empty)."""
+
+    def __init__(self, fn, how):
+        self.fn, self.how = fn, how
+
+    def __call__(self, *args):
+        return self.fn(*args)
+
+    def __len__(self):
+        return 0
+
+    def __bool__(self):
+        return False
 
 
 def composite_ref(kind, pop):
@@ -262,7 +281,12 @@ def run_agent_arm(sc, ctx):
                     ctx.probe("composite_shared_dict")
                 else:
                     comp = (lambda agents, kind_c=kind_c: composite_ref(kind_c, {k: a[Val].v for k, a in agents.items()}))
-            obj = COL.AgentCollector(m, (lambda a, fn=fn: fn(a[Val].v)), compositeFunc=comp, includeTimstep=s["ts"], **kw)
+            afn = (lambda a, fn=fn: fn(a[Val].v))
+            if sc.get("falsy_callables"):
+                ctx.probe("falsy_callable_objects_as_functions")
+                afn = FalsyCall(afn, "agent")
+                comp = FalsyCall(comp, "composite") if comp is not None else None
+            obj = COL.AgentCollector(m, afn, compositeFunc=comp, includeTimstep=s["ts"], **kw)
             cols[s["id"]] = obj
             rs = {"id": s["id"], "prio": -1 if s["prio"] is None else s["prio"], "start": s["start"], "end": s["end"],
                   "freq": s["freq"], "kind": "c"}
